@@ -346,3 +346,29 @@ def join_tokens(tokens: Sequence[str], rng=None, ws: Optional[str] = None) -> st
 def respell(tokens: Sequence[str], rng) -> List[str]:
     """same token sequence, every operator respelled at random"""
     return [rng.choice(SPELLINGS[OP_OF_SPELLING[t]]) if t in OP_OF_SPELLING else t for t in tokens]
+
+
+# =================================================================================================
+# abbreviations: packages and time conditions as syntactic sugar for sub-expressions
+# =================================================================================================
+EXACT = Style(p_redundant=0.0, flat_runs=0.0)  # every same-operator child is bracketed: the parse is exactly the AST
+UB_AST = {
+    "UB1": ["fc", "932"],
+    "UB2": ["fc", "934"],
+    "UB3": ["xor", ["then", ["fc", "932"], ["rc", "492"]], ["then", ["fc", "934"], ["rc", "493"]]],
+}
+
+
+def abbreviate(ast, rng, names, max_packages=2, style: Style = EXACT):
+    """replace up to max_packages sub-expressions by packages (names from `names`) whose expression is that sub-expression.
+    Returns (abbreviated ast, {package key: expression text}). Resolving the packages gives back the original AST."""
+    table = {}
+    for name in rng.sample(list(names), rng.randint(0, min(max_packages, len(names)))):
+        candidates = [p for p in paths(ast) if not any(get_at(ast, p[:i])[0] == "then" for i in range(len(p) + 1))]
+        candidates = [p for p in candidates if not any(leaf[0] in ("pkg", "ub") for leaf in leaves(get_at(ast, p)))]
+        if not candidates:
+            break
+        path = rng.choice(candidates)
+        table[name] = render(get_at(ast, path), rng, style)
+        ast = replace_at(ast, path, ["pkg", name, rng.choice([None, None, "0..1", "1..3"])])
+    return ast, table
